@@ -180,6 +180,7 @@ package varlink
 //@   ghostset at call(Unmarshal)#1 : gMethod = in.Method
 //@   ghostset at call(Unmarshal)#1 : gOneway = in.Oneway
 //@   assert [decode-arg C04 C10] at call(Unmarshal)#1 : arg0 == request && arg1 == boxed(addr_in)
+//@   assert [decode-fresh C01 C03 C04 C10] at call(Unmarshal)#1 : iszero(in)
 //@   ensures [undecodable C01 C04 C10] gDecErr != nil ==> result != nil && wsame() && dcount == old(dcount)
 //@   ensures [nomethod C04 C10] gDecErr == nil && lastDot(gMethod) <= 0 ==> dcount == old(dcount) && replied(gOneway) &&
 //@       (wcount == old(wcount) + 1 ==> wlastErr == "org.varlink.service.InvalidParameter" && typeof(wlastParams) == typeid(ptr(InvalidParameter)) && unbox(ptr(InvalidParameter), wlastParams).Parameter == "method")
@@ -249,13 +250,13 @@ package varlink
 //@   modifies s.conncounter, held, wgDones, gCntIn, closed, gNewConn, gHandlerErr, dlRpast, dlRzero, dlRctx, helper, gDlFail, gCancelled, gCtxErr, sockOff, bufLo, bufHi, gRdCalls, gSends, gSentVal, gSentErr, wcount, wlastErr, wlastCont, wlastParams, dcount, dlastIface, dlastMethod, dlastResult, gm, gDecErr, gMethod, gOneway
 //@   ghostset at call(NewConn)#1 : gHandlerErr = nil
 //@   ghostset at call(HandleMessage)#1 : gHandlerErr = res0
-//@   ensures [onereader C02] gNewConn == old(gNewConn) + 1
+//@   ensures [onereader C01 C02 C03 C10] gNewConn == old(gNewConn) + 1
 //@   ensures [closed C10 C14] closed[conn]
 //@   ensures [released C10 C14 C15] s.conncounter == gCntIn - 1 && wgDones[wg] == old(wgDones)[wg] + 1 && !held[s]
 //@   assert [strip C01 C02 C10] at call(HandleMessage)#1 : err == nil && len(request) >= 1 && request[len(request) - 1] == 0 && arg3 == request[0:len(request) - 1] && arg2 == boxed(ctxConn) && arg0 == s
 //@   assert [reader C02] at call(ReadBytes)#1 : arg0 == ctxConn && arg2 == 0
 //@   assert [close C10] at call(Close)#1 : arg0 == conn
-//@   loop 1 invariant [reader C02] cstruct(ctxConn) && ctxConn.conn == conn && gNewConn == old(gNewConn) + 1 && !held[s]
+//@   loop 1 invariant [reader C01 C02 C03 C10] cstruct(ctxConn) && ctxConn.conn == conn && gNewConn == old(gNewConn) + 1 && !held[s]
 //@   loop 1 invariant [stop-on-error C01 C10] gHandlerErr == nil
 //@   loop 1 decreases *
 
@@ -573,6 +574,7 @@ package varlink
 //@   ensures [cont C03 C11] gRdErr == nil && gDecErr2 == nil && gRErr == "" ==> result1 == nil && (gRCont ==> result0 == 4) && (!gRCont ==> result0 == 0)
 //@   assert [reader C02 C18] at call(ReadBytes)#1 : arg0 == (*c).conn && arg2 == 0
 //@   assert [strip C02 C11] at call(Unmarshal)#1 : arg0 == out[0:len(out) - 1] && arg1 == boxed(addr_m)
+//@   assert [decode-fresh C03 C11] at call(Unmarshal)#1 : iszero(m)
 //@   assert [errval C11 C12] at call(DispatchError)#1 : arg0.Name == m.Error && arg0.Parameters == boxed(m.Parameters) && m.Error != ""
 //@   assert [params C03] at call(Unmarshal)#2 : arg0 == *m.Parameters && arg1 == outParameters && m.Error == ""
 
